@@ -59,12 +59,20 @@ pub fn reprs_for(spec: &ModelSpec) -> (Vec<Repr>, Vec<Repr>) {
                 enc.push(Repr::Lazy);
                 dec.push(Repr::Lazy);
             }
-            if lookup_ok { dec.extend([Repr::Lookup, Repr::GenLookup]); }
+            enc.push(Repr::NonContigCtor);
+            dec.push(Repr::NonContigCtor);
+            if lookup_ok {
+                enc.push(Repr::LookupBack);
+                dec.extend([Repr::Lookup, Repr::GenLookup, Repr::LookupCtor, Repr::LookupBack, Repr::NonContigLookupCtor, Repr::NonContigLookupBack]);
+            }
         }
         Kind::Fixed { .. } => {
             enc.extend([Repr::View, Repr::GenEnc, Repr::FromTable, Repr::NonContig]);
             dec.extend([Repr::View, Repr::GenDec, Repr::FromTable, Repr::NonContig]);
-            if lookup_ok { dec.extend([Repr::Lookup, Repr::GenLookup]); }
+            if lookup_ok {
+                enc.push(Repr::LookupBack);
+                dec.extend([Repr::Lookup, Repr::GenLookup, Repr::LookupCtor, Repr::LookupBack, Repr::NonContigLookupCtor, Repr::NonContigLookupBack]);
+            }
         }
         Kind::Quant { .. } => {
             enc.extend([Repr::GenEnc, Repr::FromTable, Repr::NonContig]);
